@@ -143,6 +143,10 @@ func updateListAndMap(list []types.WorkReportHash, newItems []types.WorkReportHa
 			itemMap[item] = true
 		}
 	}
+	// psi_g, psi_b and psi_w are sets: keep them ordered (they are serialized as sorted sequences)
+	sort.Slice(result, func(i, j int) bool {
+		return bytes.Compare(result[i][:], result[j][:]) < 0
+	})
 	return result
 }
 
